@@ -27,6 +27,7 @@ CONSTANTS
   RateOn = FALSE
   Atomic = FALSE
   CloseOnLimit = TRUE
+  Hows = {"served", "failed", "panicked"}
   WatchTime = 0
 INIT MCInit
 NEXT MCNextNoWatch
